@@ -193,7 +193,8 @@ def histories(draw):
     if draw(st.integers(0, 9)) == 0:
         batches.insert(draw(st.integers(0, len(batches))), [])
     return {'kind': 'batches', 'n_tasks': n, 'via': via, 'batches': batches,
-            'mutating': draw(st.integers(0, 3)) == 0}
+            'mutating': draw(st.integers(0, 3)) == 0,
+            'service': draw(st.integers(0, 3)) == 0}
 
 
 def pair_cases(tier):
@@ -271,7 +272,7 @@ def _stream_diff(real, model):
 class _Run(object):
     """one hollow task manager with observers, fed batch by batch"""
 
-    def __init__(self, res, n, via, mutating=False):
+    def __init__(self, res, n, via, mutating=False, service=False):
         self.res  = res
         self.via  = via
         self.sess = HollowSession()
@@ -294,6 +295,11 @@ class _Run(object):
         self.frozen = {}                          # uid -> result fields when it became final
 
         tds = [rp.TaskDescription({'uid': u, 'executable': '/bin/true'}) for u in self.uids]
+        if mutating is not None and service:
+            # the last task is a service task (mode task.service): its start-up info reaches the
+            # task manager through the control channel (`service_up`) before it ends
+            tds[-1] = rp.TaskDescription({'uid': self.uids[-1], 'executable': '/bin/true',
+                                          'mode': rp.TASK_SERVICE})
         n0  = len(self.sess.net.log)
         self.tasks = dict()
         raised = None
@@ -339,6 +345,11 @@ class _Run(object):
             tm.register_callback(oneshot, uid=u0)
             tm.register_callback(registrar)
             res.label('callbacks_changing_the_callback_tables')
+
+        if service:
+            self.tm._control_cb(rpc.CONTROL_PUBSUB, {'cmd': 'service_up',
+                                'arg': {'uid': self.uids[-1], 'info': 'tcp://host:1234'}})
+            res.label('service_task_with_startup_info')
 
     # --------------------------------------------------------------------------
     def _errors(self, n0, raised):
@@ -464,7 +475,7 @@ class _Run(object):
 def _run_batches(res, case):
     n   = max(1, min(8, int(case.get('n_tasks', 1))))
     via = 'direct' if case.get('via') == 'direct' else 'pubsub'
-    run = _Run(res, n, via, mutating=bool(case.get('mutating')))
+    run = _Run(res, n, via, mutating=bool(case.get('mutating')), service=bool(case.get('service')))
 
     classes  = set()
     nt       = False
